@@ -396,8 +396,22 @@ func (c *ctx) ecCase(ix *index, full bool) {
 		}
 		return true
 	}
+	// restarts are part of the history: the volume is closed and opened again at random points
+	// (server restart, shard unmount/mount) while the journal exists
+	reopenAt := map[int]bool{}
+	if len(steps) > 1 {
+		for j := 0; j < 2+len(steps)/40; j++ {
+			reopenAt[1+rng.Intn(len(steps)-1)] = true
+		}
+	}
 	for si, st := range steps {
 		k := st.K
+		if reopenAt[si] {
+			ev.Close()
+			ev, err = ec.NewEcVolume(types.HardDriveType, dir, dir, "", needle.VolumeId(7))
+			r.Must(err, "NewEcVolume (reopen)")
+			r.Count("ec_reopens", 1)
+		}
 		if si%32 == 0 { // crash attribution: the index (regenerated from its number) and roughly where
 			r.Case(map[string]interface{}{"build": build, "index": ix.I, "step": si, "key": k, "kind": st.Kind})
 		}
@@ -578,35 +592,68 @@ func (c *ctx) sortedMapCase(ix *index) {
 	base := filepath.Join(dir, "9")
 	logb := ix.logBytes()
 	r.Must(ioutil.WriteFile(base+".idx", logb, 0644), "write .idx")
-	f, err := os.OpenFile(base+".idx", os.O_RDWR, 0644)
-	r.Must(err, "open .idx")
-	r.Case(map[string]interface{}{"build": build, "index": ix.I, "step": "NewSortedFileNeedleMap"})
-	nm, err := storage.NewSortedFileNeedleMap(base, f)
-	if err != nil {
-		r.Violation(c.sig(lib.Sig{"op": "sorted-map-open", "class": "error"}), c.detail(ix, map[string]interface{}{"err": err.Error()}))
+	open := func(what string) *storage.SortedFileNeedleMap {
+		f, err := os.OpenFile(base+".idx", os.O_RDWR, 0644)
+		r.Must(err, "open .idx")
+		r.Case(map[string]interface{}{"build": build, "index": ix.I, "step": what})
+		nm, err := storage.NewSortedFileNeedleMap(base, f)
+		if err != nil {
+			r.Violation(c.sig(lib.Sig{"op": "sorted-map-open", "class": "error", "after": what}), c.detail(ix, map[string]interface{}{"err": err.Error()}))
+			return nil
+		}
+		return nm
+	}
+	nm := open("open")
+	if nm == nil {
 		return
 	}
-	closed := false
 	defer func() {
-		if !closed {
+		if nm != nil {
 			nm.Close()
 		}
 	}()
-	deleted := map[uint64]bool{}
-	getCheck := func(m *storage.SortedFileNeedleMap, k uint64, after string) bool {
-		nv, ok := m.Get(types.NeedleId(k))
+	// current view of the .sdx: the keys it holds (sorted) and which of them are marked deleted.
+	// A reload regenerates the .sdx from the .idx when it is not newer than the .idx; deleted keys
+	// are then gone from it (both forms are legal: the key reads as deleted either way).
+	cur := append([]uint64{}, ix.Keys...)
+	marked := map[uint64]bool{}
+	gone := map[uint64]bool{}
+	curBytes := func(keys []uint64, withMarks bool) []byte {
+		var b []byte
+		for _, k := range keys {
+			e := ix.Live[k]
+			if withMarks && marked[k] {
+				e.Size = -1
+			}
+			b = append(b, enc(e)...)
+		}
+		return b
+	}
+	curPos := func(k uint64) int {
+		i := sort.Search(len(cur), func(i int) bool { return cur[i] >= k })
+		if i < len(cur) && cur[i] == k {
+			return i
+		}
+		return -1
+	}
+	getCheck := func(k uint64, after string) bool {
+		nv, ok := nm.Get(types.NeedleId(k))
 		r.Eval(1)
 		r.Count("sdx_get_checks", 1)
-		p := ix.pos(k)
-		if p < 0 {
-			if ok {
-				r.Violation(c.sig(lib.Sig{"op": "sorted-map-get", "class": "absent-key-found", "after": after}), c.detail(ix, map[string]interface{}{"key": k}))
+		if curPos(k) < 0 { // never there, deleted inside the log, or dropped by a regeneration
+			if ok && !nv.Size.IsDeleted() {
+				cls := "absent-key-found"
+				if gone[k] {
+					cls = "deleted-key-live-after-reload"
+				}
+				r.Violation(c.sig(lib.Sig{"op": "sorted-map-get", "class": cls, "after": after}), c.detail(ix, map[string]interface{}{"key": k}))
+				return false
 			}
-			return !ok
+			return true
 		}
 		e := ix.Live[k]
 		want := types.Size(e.Size)
-		if deleted[k] {
+		if marked[k] {
 			want = types.TombstoneFileSize
 		}
 		if !ok || nv.Offset.ToActualOffset() != e.Off || nv.Size != want {
@@ -615,10 +662,53 @@ func (c *ctx) sortedMapCase(ix *index) {
 		}
 		return true
 	}
-	for _, k := range ix.Keys {
-		if !getCheck(nm, k, "open") {
-			return
+	sweep := func(after string) bool {
+		for _, k := range ix.Keys {
+			if !getCheck(k, after) {
+				return false
+			}
 		}
+		return true
+	}
+	if !sweep("open") {
+		return
+	}
+	// reload: close, optionally remove the .sdx, open again; decide which legal form the .sdx has
+	reload := func(removeSdx bool, after string) bool {
+		nm.Close()
+		nm = nil
+		if removeSdx {
+			os.Remove(base + ".sdx")
+		}
+		nm = open(after)
+		if nm == nil {
+			return false
+		}
+		r.Count("sdx_reopens", 1)
+		got, _ := ioutil.ReadFile(base + ".sdx")
+		var live []uint64
+		for _, k := range cur {
+			if !marked[k] {
+				live = append(live, k)
+			}
+		}
+		r.Eval(1)
+		switch {
+		case !removeSdx && bytes.Equal(got, curBytes(cur, true)):
+			r.Count("sdx_kept_on_reopen", 1)
+		case bytes.Equal(got, curBytes(live, false)):
+			for k := range marked {
+				gone[k] = true
+			}
+			marked = map[uint64]bool{}
+			cur = live
+			r.Count("sdx_regenerated_on_reopen", 1)
+		default:
+			r.Violation(c.sig(lib.Sig{"op": "sorted-map-reload", "class": "sorted-index-differs", "after": after}), c.detail(ix, map[string]interface{}{"sdx_len": len(got), "entries_expected_marked_form": len(cur), "entries_expected_regenerated_form": len(live),
+				"msg": ".sdx after a reload is neither the previous .sdx nor the sorted live set of the .idx"}))
+			return false
+		}
+		return sweep(after)
 	}
 	// deletions
 	var ks []uint64
@@ -630,14 +720,25 @@ func (c *ctx) sortedMapCase(ix *index) {
 		ks = append(ks, ks[0]) // repeat
 		ks = append(ks, ks[0]+1, 0)
 	}
+	reopenAt := map[int]bool{}
+	if len(ks) > 1 {
+		reopenAt[1+rng.Intn(len(ks)-1)] = true
+		reopenAt[1+rng.Intn(len(ks)-1)] = true
+	}
 	idxNow := logb
 	written := 0 // tombstones this map instance has written to the .idx so far
 	for si, k := range ks {
-		p := ix.pos(k)
+		if reopenAt[si] {
+			if !reload(rng.Intn(2) == 0, "reopen") {
+				return
+			}
+			written = 0
+		}
+		p := curPos(k)
 		kind := "present"
 		if p < 0 {
 			kind = "absent"
-		} else if deleted[k] {
+		} else if marked[k] {
 			kind = "repeat"
 		}
 		delOff := int64(8 * (1000 + si))
@@ -649,9 +750,9 @@ func (c *ctx) sortedMapCase(ix *index) {
 		wantIdx := idxNow
 		wantSdx := sdxPrev
 		if kind == "present" {
-			deleted[k] = true
+			marked[k] = true
 			wantIdx = append(append([]byte{}, idxNow...), enc(entry{k, delOff, -1})...)
-			wantSdx = ix.sortedBytes(deleted)
+			wantSdx = curBytes(cur, true)
 		}
 		gotIdx, _ := ioutil.ReadFile(base + ".idx")
 		stop := false
@@ -709,48 +810,35 @@ func (c *ctx) sortedMapCase(ix *index) {
 		if stop {
 			return
 		}
-		ok := getCheck(nm, k, "delete")
+		ok := getCheck(k, "delete")
 		if p > 0 {
-			ok = getCheck(nm, ix.Keys[p-1], "delete") && ok
+			ok = getCheck(cur[p-1], "delete") && ok
 		}
-		if p >= 0 && p+1 < len(ix.Keys) {
-			ok = getCheck(nm, ix.Keys[p+1], "delete") && ok
+		if p >= 0 && p+1 < len(cur) {
+			ok = getCheck(cur[p+1], "delete") && ok
 		}
 		if !ok {
 			return
 		}
 	}
-	nm.Close()
-	closed = true
-	// reload from the .idx alone
-	os.Remove(base + ".sdx")
-	f2, err := os.OpenFile(base+".idx", os.O_RDWR, 0644)
-	r.Must(err, "reopen .idx")
-	r.Case(map[string]interface{}{"build": build, "index": ix.I, "step": "reload sorted map"})
-	nm2, err := storage.NewSortedFileNeedleMap(base, f2)
-	if err != nil {
-		r.Violation(c.sig(lib.Sig{"op": "sorted-map-open", "class": "error", "after": "reload"}), c.detail(ix, map[string]interface{}{"err": err.Error()}))
+	// final reload from the .idx alone
+	if !reload(true, "reload") {
 		return
 	}
-	// after a reload deleted keys are gone from the regenerated .sdx (absent) — model that
-	for _, k := range ix.Keys {
-		nv, ok := nm2.Get(types.NeedleId(k))
+	// the .idx itself, loaded the way a writable volume loads it, gives the same live set
+	liveWant := map[uint64]entry{}
+	for _, k := range cur {
+		liveWant[k] = ix.Live[k]
+	}
+	if got, err := liveFromIdx(base + ".idx"); err == nil {
 		r.Eval(1)
-		e := ix.Live[k]
-		if deleted[k] {
-			if ok && !nv.Size.IsDeleted() {
-				r.Violation(c.sig(lib.Sig{"op": "sorted-map-get", "class": "deleted-key-live-after-reload"}), c.detail(ix, map[string]interface{}{"key": k}))
-				break
-			}
-		} else if !ok || nv.Offset.ToActualOffset() != e.Off || nv.Size != types.Size(e.Size) {
-			r.Violation(c.sig(lib.Sig{"op": "sorted-map-get", "class": "value-differs", "after": "reload"}), c.detail(ix, map[string]interface{}{"key": k, "found": ok}))
-			break
+		if msg := sameLive(liveWant, got); msg != "" {
+			r.Violation(c.sig(lib.Sig{"op": "sorted-map-reload", "class": "live-set-differs"}), c.detail(ix, map[string]interface{}{"msg": msg}))
 		}
 	}
-	nm2.Close()
 	r.Count("sdx_reload_checks", 1)
 	r.Count("sdx_indexes", 1)
-	if len(deleted) > 0 {
+	if len(gone) > 0 {
 		r.Nontrivial(fmt.Sprintf("sdx/%s/%d/%d", build, ix.I, len(ix.Keys)))
 	}
 }
